@@ -21,3 +21,14 @@ Lemma C17_refute_send_data_unguarded :
   r = Ok tt /\ qs_log (s_q s4) = [1; 2; 9; 9] /\
   qs_log (s_q s4) <> spec_handed [EvAccepted [[1; 2; 3; 4]]; EvAccepted [[9; 9]]].
 Proof. vm_compute. repeat split. discriminate. Qed.
+
+(* poll_finish without the drain of `writing` (the code before repair F21): after a write left pending, finish
+   returns Ok and the rest of the accepted buffer never reaches Quinn.  Replay: `qw ... fault=cfin@J`. *)
+Lemma C17_refute_finish_without_drain :
+  let s0 := send_new (qsend_new 0) in
+  let '(_, s1) := send_data [[0; 4]; [1; 2; 3; 4]] s0 in
+  let '(r1, s2, o2) := poll_ready [WAccept 2; WAccept 1; WBlocked; WAccept 100] s1 in
+  let '(r2, s3, _) := poll_finish_with false o2 s2 in
+  r1 = Pending /\ r2 = Ready (Ok tt) /\ qs_finished (s_q s3) = true /\
+  qs_log (s_q s3) = [0; 4; 1] /\ qs_log (s_q s3) <> spec_handed [EvAccepted [[0; 4]; [1; 2; 3; 4]]].
+Proof. vm_compute. repeat split. discriminate. Qed.
